@@ -66,11 +66,22 @@ func verifOneOf3(names [3]string, lo, hi [3]int, fixed [3][]int) (int, int, int)
 // over its whole range against boundary values of the other two — renders in
 // ISO form and in each of the four environment time formats to text that
 // parses back to the same time at the rendered precision.
-// cover: iso, midnight, noon, pm, seconds-dropped
+// cover: iso, midnight, noon, pm, seconds-dropped, fraction
 func VerifC13_Time() {
 	h, m, s := verifOneOf3([3]string{"hour", "minute", "second"}, [3]int{0, 0, 0}, [3]int{23, 59, 59},
 		[3][]int{{0, 9, 12, 13, 23}, {0, 7, 59}, {0, 30, 59}})
-	t := NewXTime(dates.NewTimeOfDay(h, m, s, 0))
+	// fractional seconds: an arbitrary microsecond count in a 256-value window (the ISO form renders microseconds)
+	nanos := 0
+	if zzverif.Choice("fraction", 2) == 1 {
+		bases := []int{0, 999744}
+		if zzverif.Thorough() {
+			bases = []int{0, 256, 99900, 500000, 999744}
+		}
+		base := bases[zzverif.Choice("microsecond-window", len(bases))]
+		nanos = zzverif.Int("microsecond", base, base+255) * 1000
+		zzverif.Cover("fraction")
+	}
+	t := NewXTime(dates.NewTimeOfDay(h, m, s, nanos))
 	k := zzverif.Choice("format", len(verifTimeFormats)+1)
 	if h == 0 {
 		zzverif.Cover("midnight")
@@ -97,6 +108,8 @@ func VerifC13_Time() {
 	if tf == envs.TimeFormatHourMinute || tf == envs.TimeFormatHourMinuteAmPm {
 		zzverif.Cover("seconds-dropped")
 		want = NewXTime(dates.NewTimeOfDay(h, m, 0, 0))
+	} else if nanos != 0 {
+		want = NewXTime(dates.NewTimeOfDay(h, m, s, 0)) // the environment formats render whole seconds
 	}
 	zzverif.Assert(back.Equals(want), "a time rendered in the environment's format parses back to a different time")
 }
